@@ -697,6 +697,12 @@ static void emit_records(const char *tag, int which, const uint8_t *s, size_t n)
 		pre[0] = 1;
 		snprintf(nm, sizeof(nm), "%s_rec%02d_print", tag, k);
 		seedp("fz_tlsrec", nm, pre, 3, s + off, l);
+		if (k < 2) {	/* printers on the bytes as they are (length field not patched by the harness) */
+			pre[1] = (uint8_t)(k ? 4 : which); pre[2] = 0x40;
+			snprintf(nm, sizeof(nm), "%s_rec%02d_print_raw", tag, k);
+			seedp("fz_tlsrec", nm, pre, 3, s + off, l);
+			pre[1] = (uint8_t)which; pre[2] = 0;
+		}
 		if (s[off] == TLS_record_handshake && l > 9) {
 			int proto, suite;
 			const uint8_t *rnd, *sid, *cs, *exts;
